@@ -49,7 +49,7 @@ def solution(rng, n, db, feat):
             lines.append(f" -isotope 13C {rng.choice([-10, -25, 0.5])}" + (f" {rng.choice([0.5, 1])}" if rng.random() < 0.5 else ""))
         lines.append(f" -isotope 18O {rng.choice([-5, -10.5])}" + (f" {rng.choice([0.1, 0.2])}" if rng.random() < 0.5 else ""))
         if rng.random() < 0.5:
-            lines.append(f" -isotope D {rng.choice([-40, -80])}")
+            lines.append(f" -isotope 2H {rng.choice([-40, -80])}")
     return lines, names
 
 
@@ -58,9 +58,6 @@ def exchange(rng, feat, have):
     r = rng.random()
     if r < 0.6 or "pp" not in have and "kin" not in have:
         lines.append(f" X {num(rng, 0.001, 0.5)}")
-        if rng.random() < 0.3:
-            lines.append(f" Y {num(rng, 0.001, 0.1)}")
-            feat.add("exch:two-sites")
     elif "pp" in have and r < 0.8:
         lines.append(f" X Calcite equilibrium_phase {num(rng, 0.01, 0.5)}")
         feat.add("exch:phase-related")
@@ -109,7 +106,7 @@ def surface(rng, feat, have):
     return lines
 
 
-def gas_phase(rng, feat):
+def gas_phase(rng, feat, db="phreeqc.dat"):
     fixed_p = rng.random() < 0.5
     feat.add("gas:fixed_pressure" if fixed_p else "gas:fixed_volume")
     lines = ["GAS_PHASE 1", " -fixed_pressure" if fixed_p else " -fixed_volume"]
@@ -117,7 +114,8 @@ def gas_phase(rng, feat):
         lines.append(f" -pressure {rng.choice([1, 1.5, 2])}")
     lines.append(f" -volume {rng.choice([1, 0.5, 2])}")
     lines.append(f" -temperature {rng.choice([25, 25, 40])}")
-    gases = rng.sample(["CO2(g)", "O2(g)", "N2(g)", "CH4(g)", "H2O(g)"], rng.randint(1, 3))
+    pool = ["CO2(g)", "H2O(g)"] if db == "pitzer.dat" else ["CO2(g)", "O2(g)", "N2(g)", "CH4(g)", "H2O(g)"]
+    gases = rng.sample(pool, rng.randint(1, min(3, len(pool))))
     if not fixed_p and rng.random() < 0.4:
         lines.append(" -equilibrate 1")
         feat.add("gas:equilibrate")
@@ -256,7 +254,7 @@ def gen_case(rng, force=None):
     if "surf" in kinds:
         defs += surface(rng, feat, have)
     if "gas" in kinds:
-        defs += gas_phase(rng, feat)
+        defs += gas_phase(rng, feat, db)
     if "ss" in kinds:
         defs += solid_solutions(rng, feat)
     if "mix" in kinds:
